@@ -341,7 +341,8 @@ def gen_name(rng, fmt):
         base = "".join(c.upper() if rng.random() < 0.5 else c for c in base)
     shape = rng.choice(["plain", "plain", "sub", "sub2", "abs-sb", "abs-sb-exist", "dotdot1", "dotdot2", "dotdot-exist", "mid-dotdot", "mid-escape", "sibling",
                         "backslash", "lead-backslash", "drive", "hidden", "hidden-dir", "macosx", "macosx-inner", "long", "dot-seg", "dbl-slash",
-                        "trail-slash", "empty", "dot", "magic-first", "dotdot-only", "cwd-exist", "abs-etc", "tilde", "space-dots"])
+                        "trail-slash", "empty", "dot", "magic-first", "dotdot-only", "cwd-exist", "abs-etc", "tilde", "space-dots",
+                        "bs-dotdot", "bs-dotdot-exist", "bs-mid-escape", "bs-mixed"])
     if shape == "plain":
         n = base
     elif shape == "sub":
@@ -368,6 +369,14 @@ def gen_name(rng, fmt):
         n = "d\\" + base
     elif shape == "lead-backslash":
         n = "\\" + base
+    elif shape == "bs-dotdot":
+        n = rng.choice(["..\\", "..\\..\\"]) + base
+    elif shape == "bs-dotdot-exist":
+        n = rng.choice(["..\\..\\secret.txt", "..\\..\\x.txt", "..\\..\\deep\\a\\b.txt", "..\\evil.txt", "..\\..\\cwd\\x.txt"])
+    elif shape == "bs-mid-escape":
+        n = "d\\..\\..\\..\\" + rng.choice(["secret.txt", base])
+    elif shape == "bs-mixed":
+        n = rng.choice(["d/..\\..\\..\\secret.txt", "d\\../..\\../secret.txt", "..\\../" + base])
     elif shape == "drive":
         n = rng.choice(["C:\\", "C:/", "c:"]) + base
     elif shape == "hidden":
@@ -1176,6 +1185,20 @@ def search(ctx, broken):
     for b in broken:
         if b.case and isinstance(b.case.get("spec"), dict) and isinstance(b.case["spec"].get("members"), list):
             specs += _shrinks(b.case["spec"])
+        if b.case and b.case.get("fn") == "safejoin" and isinstance(b.case.get("b"), str):
+            # the join / containment function misbehaves on this name: hand it, and escape forms written with the same
+            # separator characters, to the real reader as a member with data and as a header-only entry
+            nm = b.case["b"]
+            seps = [c for c in ("\\", "/") if c in nm] or ["/"]
+            cands = [nm]
+            for sp in seps:
+                cands += [sp.join(["..", "..", "secret.txt"]), sp.join(["d", "..", "..", "..", "secret.txt"]), sp.join(["..", "evil.txt"]),
+                          sp.join(["..", "..", "cwd", "x.txt"])]
+            for c in cands:
+                specs.append({"fmt": "7z", "layout": "solid", "consumer": ["exhaust"], "max_memory": None,
+                              "members": [{"name": c, "kind": "file", "data": "plain payload"}]})
+                specs.append({"fmt": "7z", "layout": "solid", "consumer": ["exhaust"], "max_memory": None,
+                              "members": [{"name": "d/keep.txt", "kind": "file", "data": "kept"}, {"name": c, "kind": "orphan", "data": ""}]})
         if b.case and "name" in b.case:
             for fmt in ("zip", "7z", "tar"):
                 specs.append({"fmt": fmt, "layout": "solid", "consumer": ["exhaust"], "max_memory": None, "members": [
